@@ -117,6 +117,22 @@ Fixpoint filter_element_from (dirn : bool) (fl : list filter) (disk sub : list N
 Definition filter_element (fl : list filter) (disk sub : list N) (is_dir is_def_include : bool) : bool :=
   filter_element_from true fl disk sub is_dir is_def_include.
 
+(** filter_element with its [reason] out-parameter (elem.c:191-192, 247-248, 262-263): the index of the rule the
+    verbose messages of the scan name ("Excluding file '...' for rule '...'").  [cur] = the current value of *reason. *)
+Fixpoint filter_reason_from (i : nat) (cur : option nat) (dirn : bool) (fl : list filter) (disk sub : list N)
+         (is_dir is_def_include : bool) : bool * option nat :=
+  match fl with
+  | [] => (if is_def_include then false else negb dirn, cur)
+  | f :: fl' =>
+      if rule_matches f disk sub is_dir
+      then (negb (f_include f), if f_include f then cur else Some i)
+      else filter_reason_from (S i) (if f_include f then Some i else cur) (negb (f_include f)) fl' disk sub
+                              is_dir is_def_include
+  end.
+
+Definition filter_reason (fl : list filter) (disk sub : list N) (is_dir is_def_include : bool) : bool * option nat :=
+  filter_reason_from O None true fl disk sub is_dir is_def_include.
+
 Definition filter_path (fl : list filter) (disk sub : list N) : bool := filter_element fl disk sub false false.
 Definition filter_subdir (fl : list filter) (disk sub : list N) : bool := filter_element fl disk sub true true.
 Definition filter_emptydir (fl : list filter) (disk sub : list N) : bool := filter_element fl disk sub true false.
@@ -188,6 +204,16 @@ Definition scan_skips (fnm : bool -> list N -> list N -> bool) (nohidden : bool)
   || filter_content contents (dir ++ sub)
   || (if is_directory then filter_subdir fnm fl disk sub else filter_path fnm fl disk sub).
 
+(** the same, with the reason the verbose scan prints *)
+Inductive why : Type := WKeep | WHidden | WContent | WRule (k : option nat).
+
+Definition scan_why (fnm : bool -> list N -> list N -> bool) (nohidden : bool) (contents : list (list N))
+           (fl : list filter) (disk dir sub name : list N) (is_directory : bool) : why :=
+  if filter_hidden nohidden name then WHidden
+  else if filter_content contents (dir ++ sub) then WContent
+  else let (ex, r) := filter_reason fnm fl disk sub is_directory is_directory in
+       if ex then WRule r else WKeep.
+
 (** Closed instances with the modelled matcher. *)
 Definition g_filter_path := filter_path glob_match.
 Definition g_filter_subdir := filter_subdir glob_match.
@@ -196,3 +222,4 @@ Definition g_filter_recurse := filter_recurse glob_match.
 Definition g_sel_excluded := sel_excluded glob_match.
 Definition g_parity_excluded := parity_excluded glob_match.
 Definition g_scan_skips := scan_skips glob_match.
+Definition g_scan_why := scan_why glob_match.
